@@ -627,8 +627,16 @@ func Explore(u *Universe, m Monitor, cfg Config) *Result {
 				v = m.State(x)
 			}
 			if v == nil && transitionFaulty(x) {
-				e.res.HarnessErr = fmt.Sprintf("setup op %d %s is faulty (%s) but monitor %s does not own that fault; universe unusable", i, u.OpString(op), x.Panic, m.ID())
-				return e.res
+				// the history that builds this universe does not complete: whatever the property says about the states behind it
+				// cannot hold (faults inside the closure are left to C01, which owns them; a universe that cannot even be set up
+				// would otherwise end without a verdict)
+				what := u.OpString(op) + " while building the universe, content before it " + x.Pre.String()
+				obs := "panic: " + x.Panic
+				if x.Panic == "" {
+					obs = fmt.Sprintf("Delete returned %v", x.DelResult)
+				}
+				v = viol(what, "returns normally with the ideal map's result (the property quantifies over this history too)", obs)
+				v.Tags = append(v.Tags, "fault-in-setup")
 			}
 			if v != nil {
 				e.finishViolation(v, nil, "")
